@@ -65,15 +65,16 @@ def judge(t, what, exp, got, idm, ctx):
         t.violation("C14: " + why, c)
 
 
-def check_shape(t, shape, assignments=None, full=True):
+def check_shape(t, shape, assignments=None, full=True, kind="user"):
     from anytree import cachedsearch, search
 
     m = tree.Model.from_shape(shape)
+    names = ["%d%%d" % i for i in range(m.n)]   # a '%' in every repr: error messages are built from reprs
     dom = (ABSENT, "x", None)
     if assignments is None:
         assignments = itertools.product(dom, repeat=m.n)
     for tags in assignments:
-        nodes = tree.build(m, tree.default_factory("user"), "topdown")
+        nodes = tree.build(m, tree.default_factory(kind), "topdown", names=names)
         for nd, tg in zip(nodes, tags):
             if tg != ABSENT:
                 nd.tag = tg
@@ -87,7 +88,7 @@ def check_shape(t, shape, assignments=None, full=True):
                 for value in ("x", None, "q"):
                     matches = [v for v in pre if tags[v] != ABSENT and tags[v] == value]
                     k = len(matches)
-                    ctx = {"shape": shape, "tags": list(tags), "start": start, "maxlevel": ml, "value": value}
+                    ctx = {"shape": shape, "kind": kind, "tags": list(tags), "start": start, "maxlevel": ml, "value": value}
                     if k and any(tg == ABSENT for tg in tags):
                         t.c["missing_attribute_skipped"] += 1
                     for mn, mx in bound_grid(k):
@@ -109,7 +110,7 @@ def check_shape(t, shape, assignments=None, full=True):
                 if not full:
                     continue
                 # default attribute name: "name"
-                nm = str(start)
+                nm = names[start]
                 judge(t, "find_by_attr(default name)", ("ok", start if ml is None or ml > 0 else None),
                       outcome(search.find_by_attr, nodes[start], nm, maxlevel=ml), idm, {"shape": shape, "start": start, "maxlevel": ml})
         if not full:
@@ -129,7 +130,7 @@ def check_shape(t, shape, assignments=None, full=True):
                     for ml in (None, 0, 1, h + 1):
                         pre = m.restricted(start, frozenset(stopset), frozenset(hidden), ml)[0]["pre"]
                         k = len(pre)
-                        ctx = {"shape": shape, "start": start, "stop": list(stopset), "filtered_out": list(hidden), "maxlevel": ml}
+                        ctx = {"shape": shape, "kind": kind, "start": start, "stop": list(stopset), "filtered_out": list(hidden), "maxlevel": ml}
                         for mn, mx in bound_grid(k):
                             exp = expect_findall(pre, mn, mx)
                             t.c["nontrivial"] += 1 if (exp[0] != "ok" or stopset or hidden) else 0
@@ -140,7 +141,7 @@ def check_shape(t, shape, assignments=None, full=True):
                         expf = ("ok", None) if k == 0 else (("ok", pre[0]) if k == 1 else ("CountError", (1, k)))
                         judge(t, "find", expf, outcome(search.find, nodes[start], filt, stop, ml), idm, ctx)
                         judge(t, "cachedsearch.find", expf, outcome(cachedsearch.find, nodes[start], filter_=filt, stop=stop, maxlevel=ml), idm, ctx)
-    if full:
+    if full and kind == "user":
         check_attribute_kinds(t, shape, m)
         check_call_mutate_call(t, shape, m)
     t.sample({"shape": shape, "tags": ["x", None, ABSENT][: m.n], "query": "findall_by_attr(start, None, name='tag', mincount=0, maxcount=0)"}, cap=1)
@@ -240,6 +241,9 @@ def job(shapes, full):
     for s in shapes:
         if full:
             core.guard(t, "C14", {"engine": "E2", "module": MOD, "shape": s}, check_shape, t, s)
+            if _count(s) <= 3:
+                # a node class that is falsy (empty container): a single falsy match is still the match
+                core.guard(t, "C14", {"engine": "E2", "module": MOD, "shape": s, "kind": "falsy"}, check_shape, t, s, None, True, "falsy")
         else:
             m = tree.Model.from_shape(s)
             dom = (ABSENT, "x", None)
@@ -255,7 +259,8 @@ def _tup(x):
 def replay(c):
     t = core.Tally()
     tags = c.get("tags")
-    check_shape(t, _tup(c["shape"]), [tuple(tags)] if tags else [tuple(ABSENT for _ in range(_count(_tup(c["shape"]))))])
+    check_shape(t, _tup(c["shape"]), [tuple(tags)] if tags else [tuple(ABSENT for _ in range(_count(_tup(c["shape"]))))],
+                kind=c.get("kind", "user"))
     return [v["why"] for v in t.violations]
 
 
